@@ -419,8 +419,12 @@ def dispatch (mode : Mode) (c : Nat) (conn : Conn) (sig : Sig) (args : List Byte
       emit c (.err (strBytes ("EXECABORT Transaction discarded because of: " ++ (sig.wrongArgs.drop 4))))
     else emit c (.err (strBytes sig.wrongArgs))
   else if conn.tx.isSome && !SigTable.notQueued.contains sig.name then
-    modifyConn c fun x => { x with tx := x.tx.map (· ++ [(sig.name, args)]) }
-    emit c .queued
+    if SigTable.notInMulti.contains sig.name then
+      modifyConn c fun x => { x with txFailed := true }
+      emit c (.err (strBytes Msgs.COMMAND_IN_MULTI_MSG))
+    else
+      modifyConn c fun x => { x with tx := x.tx.map (· ++ [(sig.name, args)]) }
+      emit c .queued
   else
     match ← runCommand mode c sig args false with
     | some r => emit c r
@@ -455,16 +459,32 @@ theorem txOf_emit (c c' : Nat) (r : Reply) (s : Sys) : txOf ((emit c r).run s).2
 theorem txOf_queued (mode : Mode) (c : Nat) (conn : Conn) (sig : Sig) (args : List Bytes) (s : Sys)
     (hconn : conn.tx.isSome = true)
     (har : sig.checkArity args.length = true)
-    (hnq : SigTable.notQueued.contains sig.name = false) :
+    (hnq : SigTable.notQueued.contains sig.name = false)
+    (hnm : SigTable.notInMulti.contains sig.name = false) :
     txOf ((dispatch mode c conn sig args).run s).2 c =
       (txOf s c).map (·.map (· ++ [(sig.name, args)])) := by
   unfold dispatch
-  simp only [har, hconn, hnq, Bool.not_true, Bool.false_eq_true, if_false, Bool.not_false, Bool.and_self,
+  simp only [har, hconn, hnq, hnm, Bool.not_true, Bool.false_eq_true, if_false, Bool.not_false, Bool.and_self,
     if_true, StateT.run_bind]
   simp only [bind]
   rw [txOf_emit, txOf_modifyConn_self c
     (fun x => { x with tx := x.tx.map (· ++ [(sig.name, args)]) }) (fun _ => rfl) (Option.map (· ++ [(sig.name, args)])) (fun _ => rfl)]
   congr 1
+  rw [← txOf_cleanupClosed c s, ← txOf_nextClock c (cleanupClosed.run s).2]
+  exact txOf_congr_conns c rfl
+
+/-- the refused (P)SUBSCRIBE / (P)UNSUBSCRIBE inside MULTI leaves the queue as it is -/
+theorem txOf_refused (mode : Mode) (c : Nat) (conn : Conn) (sig : Sig) (args : List Bytes) (s : Sys)
+    (hconn : conn.tx.isSome = true)
+    (har : sig.checkArity args.length = true)
+    (hnq : SigTable.notQueued.contains sig.name = false)
+    (hnm : SigTable.notInMulti.contains sig.name = true) :
+    txOf ((dispatch mode c conn sig args).run s).2 c = txOf s c := by
+  unfold dispatch
+  simp only [har, hconn, hnq, hnm, Bool.not_true, Bool.false_eq_true, if_false, Bool.not_false, Bool.and_self,
+    if_true, StateT.run_bind]
+  simp only [bind]
+  rw [txOf_emit, txOf_modifyConn_keep c c (fun x => { x with txFailed := true }) (fun _ => rfl) (fun _ => rfl)]
   rw [← txOf_cleanupClosed c s, ← txOf_nextClock c (cleanupClosed.run s).2]
   exact txOf_congr_conns c rfl
 
